@@ -13,6 +13,7 @@ def allOps : List (String × (Json → D Json)) :=
   ++ Polar.trigOps
   ++ Polar.invariantOps
   ++ Polar.synthOps
+  ++ Polar.limitOps
 
 def dispatch (j : Json) : Json :=
   match jField j "op" >>= jStr with
